@@ -7,7 +7,7 @@
                       validated, only the type codes of that marshal version exist).
    The two share the per-type-code structure, which is the structure of both sources; every
    behavioural difference is an explicit `if strict` below.  Definitions only. *)
-From Xdis Require Import Base.Prelude Base.Result Base.LE.
+From Xdis Require Import Base.Prelude Base.Result Base.LE Base.Utf8.
 
 Inductive pv :=
 | PNull | PNone | PTrue | PFalse | PEllipsis | PStopIter
@@ -144,6 +144,10 @@ Definition as_list (v : pv) : option (list pv) :=
 Definition as_bytes (v : pv) : option (list Z) :=
   match v with PBin b | PText b => Some b | _ => None end.
 
+(* 3.x text is decoded (UTF-8, surrogatepass): ill-formed bytes raise UnicodeDecodeError in both readers;
+   2.x unicode objects keep their payload undecoded *)
+Definition text_bad (c : cfg) (s : list Z) : bool := vge c [3; 0] && negb (utf8_ok s).
+
 (* ---- leaves: no recursion ---- *)
 Definition r_leaf (c : cfg) (save : bool) (t : Z) (st : mstate) (l : list Z) : option (result (pv * mstate)) :=
   let len := List.length l in
@@ -185,6 +189,7 @@ Definition r_leaf (c : cfg) (save : bool) (t : Z) (st : mstate) (l : list Z) : o
     Ok (v, {| inp := inp st'; refs := refs st'; strs := strs st' ++ [v] |}))
   else if (t =? 117) || (t =? 97) || (t =? 65) then Some (               (* 'u' 'a' 'A' *)
     do2 (n, l1) <- read_s32 c l; do2 (s, l2) <- read_n c n l1;
+    if (t =? 117) && text_bad c s then Err UnicodeErr else
     let st' := r_ref save (PText s) st l2 in
     Ok (PText s, if t =? 65 then {| inp := inp st'; refs := refs st'; strs := strs st' ++ [PText s] |} else st'))
   else if (t =? 122) || (t =? 90) then Some (                            (* 'z' 'Z' *)
